@@ -15,7 +15,7 @@ import ast
 from dataclasses import dataclass
 from typing import Any, Callable
 
-from ..astutil import (ERROR_CLASSES, Locals, call_name, calls_in, error_names, local_names, names_in, norm, region, returns_error,
+from ..astutil import (ERROR_CLASSES, Locals, call_name, calls_in, constructs_error, error_names, local_names, names_in, norm, region, returns_error,
                        short, where)
 from ..cfg import walk_own
 from ..core import AnalysisError, Report
@@ -170,6 +170,8 @@ class PathSim:
                 if n is not None:
                     st[("n", target.id)] = n
         elif isinstance(target, (ast.Tuple, ast.List)):
+            if value is not None and not isinstance(value, (ast.Tuple, ast.List)):
+                value = self.resolve(value, before)   # `a, b = (x, y) if c else (y, x)` with c known on this path
             if isinstance(value, (ast.Tuple, ast.List)) and len(value.elts) == len(target.elts) and \
                     not any(isinstance(x, ast.Starred) for x in [*value.elts, *target.elts]):
                 for t, v in zip(target.elts, value.elts):
@@ -178,6 +180,16 @@ class PathSim:
                 for t in target.elts:
                     self._bind(t.value if isinstance(t, ast.Starred) else t, None, before, st)
         # attribute / subscript stores do not change what is known about locals
+
+    def _walrus(self, test: ast.expr, st: State) -> State:
+        """the state after the assignment expressions of a test (`if (m := f(x)) is not None:` binds m on both arms)"""
+        st1 = st
+        for n in ast.walk(test):
+            if isinstance(n, ast.NamedExpr):
+                if st1 is st:
+                    st1 = dict(st)
+                self._bind(n.target, n.value, st, st1)
+        return st1
 
     # -- statements ---------------------------------------------------------------------------------------------------
     def paths(self, init: "State | None" = None) -> list[Path]:
@@ -227,6 +239,7 @@ class PathSim:
         if isinstance(s, ast.Expr) and isinstance(s.value, ast.Constant):
             return [(st, trail, None)]  # docstring
         if isinstance(s, ast.If):
+            st = self._walrus(s.test, st)
             v = self.truth(s.test, st)
             out = []
             if v is not False:
@@ -357,6 +370,108 @@ def _chain(e: ast.Compare, val: Callable[[ast.expr], Any]) -> "bool | None":
     return res
 
 
+def _error_test(e: ast.expr) -> "str | None":
+    """the local that `isinstance(<local>, <error class(es)>)` asks about (also when the test binds it: `isinstance(x := f(), E)`)"""
+    if isinstance(e, ast.Call) and call_name(e) == "isinstance" and len(e.args) == 2:
+        a = e.args[0]
+        while isinstance(a, ast.NamedExpr):
+            a = a.target
+        if isinstance(a, ast.Name) and any(k in ERROR_CLASSES for k in _class_names(e.args[1])):
+            return a.id
+    return None
+
+
+def error_locals(fn: ast.AST) -> set[str]:
+    """astutil.error_names, indifferent to how the local is bound: assignment, annotated assignment or assignment expression from an
+    error constructor, or asked about by an isinstance test for an error class (wherever the test binds it)"""
+    out = set(error_names(fn))
+    for n in ast.walk(fn):
+        if isinstance(n, (ast.NamedExpr, ast.AnnAssign)) and isinstance(n.target, ast.Name) and n.value is not None and constructs_error(n.value):
+            out.add(n.target.id)
+        elif isinstance(n, ast.Call):
+            x = _error_test(n)
+            if x is not None:
+                out.add(x)
+    return out
+
+
+def _narrowed(test: ast.expr, taken: bool, st: State, depth: int = 0) -> dict[str, bool]:
+    """what taking this arm of the test says about locals being an error value: {local: is an error}"""
+    if isinstance(test, ast.UnaryOp) and isinstance(test.op, ast.Not):
+        return _narrowed(test.operand, not taken, st, depth)
+    if isinstance(test, ast.BoolOp) and (isinstance(test.op, ast.And) == taken):
+        out: dict[str, bool] = {}
+        for v in test.values:
+            out.update(_narrowed(v, taken, st, depth))
+        return out
+    if isinstance(test, ast.NamedExpr):
+        return _narrowed(test.value, taken, st, depth)
+    if isinstance(test, ast.Name) and depth < 2 and isinstance(st.get(("v", test.id)), ast.expr) and not isinstance(st[("v", test.id)], ast.Name):
+        return _narrowed(st[("v", test.id)], taken, st, depth + 1)   # a condition held in a local
+    x = _error_test(test) if isinstance(test, ast.expr) else None
+    return {x: taken} if x is not None else {}
+
+
+def implied_atoms(test: ast.expr, taken: bool) -> list[tuple[ast.expr, bool]]:
+    """the atoms whose truth value follows from the test having come out as `taken`: (atom, its value) - through not, the operands
+    of an `and` that held, of an `or` that did not"""
+    if isinstance(test, ast.UnaryOp) and isinstance(test.op, ast.Not):
+        return implied_atoms(test.operand, not taken)
+    if isinstance(test, ast.BoolOp):
+        if isinstance(test.op, ast.And) == taken:
+            return [x for v in test.values for x in implied_atoms(v, taken)]
+        return []
+    if isinstance(test, ast.NamedExpr):
+        return implied_atoms(test.value, taken)
+    return [(test, taken)]
+
+
+def path_error_facts(p: Path) -> dict[str, bool]:
+    """{local: holds an error value} at the end of the path, as far as the path itself says: bound to an error constructor / to a
+    local known to hold one, or narrowed by the arm of an isinstance(<local>, <error class>) test that the path took; a later
+    binding to something else forgets it"""
+    facts: dict[str, bool] = {}
+
+    def bind(t: ast.AST, v: "ast.AST | None") -> None:
+        if isinstance(t, ast.Name):
+            facts.pop(t.id, None)
+            if v is not None and constructs_error(v):
+                facts[t.id] = True
+            elif isinstance(v, ast.Name) and v.id in facts:
+                facts[t.id] = facts[v.id]
+        elif isinstance(t, (ast.Tuple, ast.List)):
+            for x in t.elts:
+                bind(x.value if isinstance(x, ast.Starred) else x, None)
+
+    for ev in p.events:
+        n = ev.node
+        if ev.kind == "stmt":
+            if isinstance(n, ast.Assign):
+                for t in n.targets:
+                    bind(t, n.value)
+            elif isinstance(n, (ast.AnnAssign, ast.AugAssign)):
+                bind(n.target, n.value if isinstance(n, ast.AnnAssign) else None)
+        for w in (walk_own(n) if isinstance(n, ast.stmt) else ast.walk(n)):
+            if isinstance(w, ast.NamedExpr):
+                bind(w.target, w.value)
+        if ev.kind == "test" and ev.taken is not None and isinstance(n, ast.expr):
+            facts.update(_narrowed(n, ev.taken, ev.state))
+    return facts
+
+
+def path_returns_error(p: Path, err_names: set[str]) -> bool:
+    """the path ends by returning an error: the returned expression constructs one, or it is (a tuple with) a local that holds one on
+    this path; a local the path says nothing about counts when the function narrows it to an error class somewhere (err_names)"""
+    s = p.end
+    if not isinstance(s, ast.Return) or s.value is None:
+        return False
+    if constructs_error(s.value):
+        return True
+    facts = path_error_facts(p)
+    cands = [s.value] + (list(s.value.elts) if isinstance(s.value, ast.Tuple) else [])
+    return any(isinstance(c, ast.Name) and facts.get(c.id, c.id in err_names) for c in cands)
+
+
 def _strip(e: ast.expr) -> ast.expr:
     """the collection an expression passes on unchanged: `x or []`, list(x), tuple(x), cast(T, x), (y := x)"""
     while True:
@@ -433,26 +548,98 @@ class _RenameApart(ast.NodeTransformer):
         return self.generic_visit(n)
 
 
-class _TailInliner:
-    """`return cls._second_phase(a=x, b=y)` -> `a' = x; b' = y; <body of _second_phase over a', b'>`: exact for a call in return
-    position (the helper's returns become the function's returns).  Only private helpers of the function's region are inlined
-    (astutil.region), only when every parameter can be bound; the helper's parameters and locals are renamed apart, so nothing
-    depends on the two pieces using the same or different spellings."""
+def region_any(ix: Any, f: FuncInfo, depth: int = 2) -> list[FuncInfo]:
+    """astutil.region, whatever the receiver of the call is spelt like (`<expression>._helper(...)`): a private function or method
+    of the same module counts when it is the only one of its name there"""
+    out = list(region(ix, f, depth))
+    seen = {g.qual for g in out}
+    frontier = list(out)
+    for _ in range(depth):
+        nxt: list[FuncInfo] = []
+        for g in frontier:
+            for c in calls_in(g.node):
+                last = c.func.attr if isinstance(c.func, ast.Attribute) else c.func.id if isinstance(c.func, ast.Name) else ""
+                if not last.startswith("_") or last.startswith("__"):
+                    continue
+                cands = [h for h in ix.all_functions if h.name == last and h.module is g.module]
+                if len(cands) == 1 and cands[0].qual not in seen:
+                    seen.add(cands[0].qual)
+                    out.append(cands[0])
+                    nxt.append(cands[0])
+        frontier = nxt
+    return out
+
+
+def _returns_in(s: ast.AST) -> bool:
+    todo = [s]
+    while todo:
+        n = todo.pop()
+        if isinstance(n, ast.Return):
+            return True
+        if n is not s and isinstance(n, (ast.FunctionDef, ast.AsyncFunctionDef, ast.ClassDef, ast.Lambda)):
+            continue
+        todo += list(ast.iter_child_nodes(n))
+    return False
+
+
+class _Inliner:
+    """A function with the private helpers of its region written out in place - extracting a helper moves code, not behaviour, so
+    roles and paths are looked for in the function *as if it had not been cut into pieces*:
+
+    * `return cls._second_phase(a=x, b=y)` (or `r = helper(...)` directly followed by `return r`) -> `a' = x; b' = y; <body of the
+      helper over a', b'>`: exact for a call in return position (the helper's returns become the function's returns);
+    * any other call of a helper that the statement evaluates unconditionally (the value of an assignment, the test of an `if`,
+      an argument, the receiver of a method call, ...) -> the helper's body before the statement, every `return v` of it rewritten
+      to `returned' = v` with the statements after it moved into the arms that go on (no early exit is left), and `returned'`
+      in place of the call.  A helper with a return inside a loop / try / with is left alone.
+
+    Only private helpers of the function's region are inlined (region_any), only when every parameter can be bound (the receiver
+    of a method call is its `self`); the helper's parameters and locals are renamed apart, so nothing depends on the pieces
+    using the same or different spellings."""
+
+    MAX_STMTS = 400
 
     def __init__(self, ix: Any, f: FuncInfo, depth: int = 2):
         self.f = f
-        self.helpers = {h.name: h for h in region(ix, f, depth)[1:]}
+        self.helpers = {h.name: h for h in region_any(ix, f, depth)[1:]}
         self.depth = depth
         self.n = 0
+        self.own = local_names(f.node) | {p.arg for p in f.params}
 
     def run(self) -> ast.AST:
         import copy
 
-        if not self.helpers:
-            return self.f.node
         fn = copy.deepcopy(self.f.node)
         fn.body = self._block(fn.body, (self.f.name,))
         return ast.fix_missing_locations(fn) if self.n else self.f.node
+
+    def _unrolled(self, s: ast.stmt) -> "list[ast.stmt] | None":
+        """`for x in <constant sequence>: body` -> `x = e0; body; x = e1; body; ...` when the sequence is written out (in the loop
+        header or as a module-level constant of the function's module) and the body neither breaks nor continues: a table of
+        cases walked by a loop is the same program as the cases written one after the other"""
+        import copy
+
+        if not isinstance(s, ast.For) or s.orelse or not isinstance(s.target, ast.Name):
+            return None
+        it: "ast.expr | None" = s.iter
+        if isinstance(it, ast.Name) and it.id not in self.own:
+            it = self.f.module.variables.get(it.id)
+        if not isinstance(it, (ast.Tuple, ast.List)) or not (0 < len(it.elts) <= 8) or any(isinstance(x, ast.Starred) for x in it.elts):
+            return None
+        todo: list[ast.AST] = list(s.body)
+        while todo:
+            n = todo.pop()
+            if isinstance(n, (ast.Break, ast.Continue)):
+                return None
+            if isinstance(n, (ast.For, ast.AsyncFor, ast.While, ast.FunctionDef, ast.AsyncFunctionDef, ast.ClassDef, ast.Lambda)):
+                continue
+            todo += list(ast.iter_child_nodes(n))
+        out: list[ast.stmt] = []
+        for el in it.elts:
+            out.append(ast.copy_location(ast.Assign(targets=[ast.Name(id=s.target.id, ctx=ast.Store())], value=copy.deepcopy(el)), s))
+            out += [copy.deepcopy(x) for x in s.body]
+        self.n += 1
+        return out
 
     def _block(self, body: list[ast.stmt], stack: tuple[str, ...]) -> list[ast.stmt]:
         out: list[ast.stmt] = []
@@ -475,6 +662,11 @@ class _TailInliner:
                     out += got
                     skip = True
                     continue
+            flat = self._unrolled(s)
+            if flat is not None:
+                out += self._block(flat, stack)
+                continue
+            out += self._hoist(s, stack)
             if not isinstance(s, (ast.FunctionDef, ast.AsyncFunctionDef, ast.ClassDef)):
                 for fld in ("body", "orelse", "finalbody"):
                     sub = getattr(s, fld, None)
@@ -487,14 +679,105 @@ class _TailInliner:
             out.append(s)
         return out
 
-    def _expand(self, s: ast.Return, c: ast.Call, stack: tuple[str, ...]) -> "list[ast.stmt] | None":
+    # -- calls in other than return position ---------------------------------------------------------------------------------------
+    def _unconditional(self, node: ast.AST, only: "tuple[str, ...] | None", out: list[tuple[ast.AST, str, "int | None", ast.Call]]) -> None:
+        """the outermost helper calls that evaluating `node` always evaluates, in order: (parent, field, index, call)"""
+        for fld, val in ast.iter_fields(node):
+            if only is not None and fld not in only:
+                continue
+            for i, ch in enumerate(val if isinstance(val, list) else [val]):
+                if not isinstance(ch, ast.AST):
+                    continue
+                if (isinstance(node, ast.IfExp) and fld in ("body", "orelse")) or (isinstance(node, ast.BoolOp) and fld == "values" and i > 0):
+                    continue   # evaluated on some paths only
+                if isinstance(node, ast.Compare) and fld == "comparators" and i > 0:
+                    continue
+                if isinstance(ch, (ast.Lambda, ast.ListComp, ast.SetComp, ast.DictComp, ast.GeneratorExp, ast.FunctionDef, ast.AsyncFunctionDef,
+                                   ast.ClassDef, ast.Await, ast.Yield, ast.YieldFrom)):
+                    continue
+                if isinstance(node, ast.stmt) and isinstance(ch, (ast.stmt, ast.ExceptHandler, ast.match_case)):
+                    continue   # nested blocks are statements of their own
+                if isinstance(ch, ast.Call) and self._helper_of(ch) is not None:
+                    out.append((node, fld, i if isinstance(val, list) else None, ch))
+                    continue
+                self._unconditional(ch, None, out)
+
+    def _helper_of(self, c: ast.Call) -> "FuncInfo | None":
+        last = c.func.attr if isinstance(c.func, ast.Attribute) else c.func.id if isinstance(c.func, ast.Name) else ""
+        return self.helpers.get(last)
+
+    def _hoist(self, s: ast.stmt, stack: tuple[str, ...]) -> list[ast.stmt]:
+        if isinstance(s, (ast.FunctionDef, ast.AsyncFunctionDef, ast.ClassDef, ast.While, ast.Try, ast.Match)):
+            return []
+        only = ("test",) if isinstance(s, ast.If) else ("iter",) if isinstance(s, (ast.For, ast.AsyncFor)) else \
+            ("items",) if isinstance(s, (ast.With, ast.AsyncWith)) else None
+        found: list[tuple[ast.AST, str, "int | None", ast.Call]] = []
+        self._unconditional(s, only, found)
+        pre: list[ast.stmt] = []
+        for parent, fld, i, call in found:
+            got = self._expand_value(s, call, stack)
+            if got is None:
+                continue
+            stmts, res = got
+            pre += stmts
+            name = ast.copy_location(ast.Name(id=res, ctx=ast.Load()), call)
+            if i is None:
+                setattr(parent, fld, name)
+            else:
+                getattr(parent, fld)[i] = name
+        return pre
+
+    def _structured(self, stmts: list[ast.stmt], res: str, budget: list[int]) -> "list[ast.stmt] | None":
+        """the statements with every `return v` rewritten to `res = v` and nothing executed after it"""
         import copy
 
-        cn = call_name(c)
-        last = cn.rsplit(".", 1)[-1]
-        head = cn.rsplit(".", 1)[0] if "." in cn else ""
-        h = self.helpers.get(last)
-        if h is None or last in stack or len(stack) > self.depth or isinstance(h.node, ast.AsyncFunctionDef):
+        out: list[ast.stmt] = []
+        for i, s in enumerate(stmts):
+            budget[0] -= 1
+            if budget[0] < 0:
+                return None
+            if isinstance(s, ast.Return):
+                v = copy.deepcopy(s.value) if s.value is not None else ast.Constant(value=None)
+                out.append(ast.copy_location(ast.Assign(targets=[ast.Name(id=res, ctx=ast.Store())], value=v), s))
+                return out
+            if not _returns_in(s):
+                out.append(copy.deepcopy(s))
+                continue
+            if isinstance(s, ast.If):
+                rest = list(stmts[i + 1:])
+                a, b = self._structured(list(s.body) + rest, res, budget), self._structured(list(s.orelse) + rest, res, budget)
+                if a is None or b is None:
+                    return None
+                out.append(ast.copy_location(ast.If(test=copy.deepcopy(s.test), body=a, orelse=b), s))
+                return out
+            return None
+        anchor = stmts[-1] if stmts else self.f.node
+        out.append(ast.copy_location(ast.Assign(targets=[ast.Name(id=res, ctx=ast.Store())], value=ast.Constant(value=None)), anchor))
+        return out
+
+    def _expand_value(self, s: ast.stmt, c: ast.Call, stack: tuple[str, ...]) -> "tuple[list[ast.stmt], str] | None":
+        got = self._prepare(s, c, stack)
+        if got is None:
+            return None
+        h, new, ren, suffix, last = got
+        res = f"returned{suffix}"
+        body = self._structured(list(h.node.body), res, [self.MAX_STMTS])
+        if body is None:
+            self.n -= 1
+            return None
+        new += [ren.visit(st) for st in body]
+        return self._block(new, stack + (last,)), res
+
+    # -- binding the helper's parameters ---------------------------------------------------------------------------------------------
+    def _prepare(self, s: ast.stmt, c: ast.Call, stack: tuple[str, ...]) -> "tuple[FuncInfo, list[ast.stmt], _RenameApart, str, str] | None":
+        import copy
+
+        h = self._helper_of(c)
+        if h is None:
+            return None
+        last = h.name
+        head = norm(c.func.value) if isinstance(c.func, ast.Attribute) else ""
+        if last in stack or len(stack) > self.depth or isinstance(h.node, ast.AsyncFunctionDef):
             return None
         a = h.node.args
         if a.vararg or a.kwarg or any(isinstance(x, ast.Starred) for x in c.args) or any(k.arg is None for k in c.keywords):
@@ -510,15 +793,18 @@ class _TailInliner:
                 bound[p.arg] = d
         pos = [p.arg for p in allpos]
         keep: set[str] = set()
+        plain_class = isinstance(c.func, ast.Attribute) and (dotted(c.func.value) or "")[:1].isupper()
         if h.kind in ("method", "classmethod", "property") and pos:
             implicit, pos = pos[0], pos[1:]
             if head == implicit:
                 keep.add(implicit)          # self._h(...) / cls._h(...): the same object under the same name
-            elif h.kind == "classmethod" and head[:1].isupper():
-                bound[implicit] = ast.parse(head, mode="eval").body
+            elif h.kind == "classmethod" and plain_class:
+                bound[implicit] = c.func.value  # type: ignore[union-attr]
+            elif h.kind == "method" and isinstance(c.func, ast.Attribute) and not plain_class:
+                bound[implicit] = c.func.value   # <expression>._h(...): the receiver is the method's `self`
             else:
                 return None
-        elif head not in ("",) and not head[:1].isupper() and head not in ("self", "cls"):
+        elif h.kind == "function" and head:
             return None
         if len(c.args) > len(pos):
             return None
@@ -532,20 +818,29 @@ class _TailInliner:
         if any(p not in bound and p not in keep for p in every):
             return None
         self.n += 1
-        suffix = f"·{self.n}"   # a middle dot is a legal identifier character that no hand-written local uses
+        suffix = f"\u00b7{self.n}"   # a middle dot is a legal identifier character that no hand-written local uses
         ren = _RenameApart((local_names(h.node) | every) - keep, suffix)
         new: list[ast.stmt] = []
         for p_ in [x for x in [*[q.arg for q in allpos], *[q.arg for q in a.kwonlyargs]] if x in bound and x not in keep]:
             new.append(ast.copy_location(ast.Assign(targets=[ast.Name(id=p_ + suffix, ctx=ast.Store())], value=copy.deepcopy(bound[p_])), s))
+        return h, new, ren, suffix, last
+
+    def _expand(self, s: ast.Return, c: ast.Call, stack: tuple[str, ...]) -> "list[ast.stmt] | None":
+        import copy
+
+        got = self._prepare(s, c, stack)
+        if got is None:
+            return None
+        h, new, ren, _, last = got
         new += [ren.visit(copy.deepcopy(st)) for st in h.node.body]
         new.append(ast.copy_location(ast.Return(value=None), s))
         return self._block(new, stack + (last,))
 
 
 def inline_tail_calls(ix: Any, f: FuncInfo) -> ast.AST:
-    """f's definition with the private helpers it hands over to in return position written out in place (f.node itself when there is
-    none)"""
-    return _TailInliner(ix, f).run()
+    """f's definition with the private helpers of its region written out in place (f.node itself when there is none); the name is
+    historical: calls in return position were the first to be written out"""
+    return _Inliner(ix, f).run()
 
 
 # =====================================================================================================================
@@ -597,7 +892,7 @@ class _Builder:
             self.params |= {nm for nm, ds in self.lc.defs.items() if ds and all(k == "assign" and isinstance(v, ast.Name) and v.id in self.params
                                                                              for k, _, v in ds)}
         self.helpers = {h.name: h for h in region(ix, f)[1:]}
-        self.err = error_names(self.fn)
+        self.err = error_locals(self.fn)
         # E: the schema's enum list; L: the list without nulls; T: the set of member types; ty: the single member type
         self.E = self._closure(lambda v: self._enum_read(_strip(v)))
         self.filters = _filters_over(self.fn, self.is_E)
@@ -623,7 +918,10 @@ class _Builder:
                 for c in calls_in(loop):
                     if isinstance(c.func, ast.Attribute) and c.func.attr in ("append", "add") and isinstance(c.func.value, ast.Name):
                         self.L.add(c.func.value.id)
-        self.L |= self._closure(lambda v: False, set(self.L))
+        # ... and a list made from it element by element (a comprehension without condition, map, sorted / reversed): as many
+        # elements, none of them null - whatever is done to the elements is not this rule's business
+        for _ in range(3):
+            self.L |= self._closure(lambda v: self._elementwise(_strip(v)), set(self.L))
         self.T = {nm for nm, ds in self.lc.defs.items() for _, _, v in ds if v is not None and self._types_of_L(v)}
         self.ty = {nm for nm, ds in self.lc.defs.items() for k, _, v in ds if v is not None and k.startswith("assign") and
                    names_in(v) & self.T and not (isinstance(v, ast.Call) and call_name(v) == "len") and nm not in self.T and
@@ -635,6 +933,7 @@ class _Builder:
         # the member table being built (the `values=` argument of the construction); it maps names to values when the class
         # declares `values` as a dict
         self.tables = {kw.value.id for c in self.ctors for kw in c.keywords if kw.arg == "values" and isinstance(kw.value, ast.Name)}
+        self.tables |= self._closure(lambda v: False, set(self.tables))   # ... and the locals that only stand for it (a helper's parameter)
         fld = ix.find_field(ix.cls(cls_name), "values")
         self.mapping = fld is not None and fld[1] is not None and norm(fld[1]).lower().startswith(("dict", "mapping", "typing.dict"))
 
@@ -656,6 +955,18 @@ class _Builder:
                         changed = True
                         break
         return names
+
+    def _elementwise(self, e: ast.expr) -> bool:
+        """e has one element for every element of the null-free list"""
+        if isinstance(e, (ast.ListComp, ast.GeneratorExp)) and len(e.generators) == 1 and not e.generators[0].ifs:
+            return self.is_L(e.generators[0].iter)
+        if isinstance(e, ast.Call) and not e.keywords:
+            fn = call_name(e).rsplit(".", 1)[-1]
+            if fn in ("sorted", "reversed", "list", "tuple") and len(e.args) == 1:
+                return self.is_L(e.args[0]) or self._elementwise(e.args[0])
+            if fn == "map" and len(e.args) == 2:
+                return self.is_L(e.args[1])
+        return False
 
     def _enum_read(self, e: ast.expr) -> bool:
         return isinstance(e, ast.Attribute) and e.attr == "enum" and isinstance(e.value, ast.Name) and e.value.id in self.params
@@ -783,6 +1094,17 @@ class _Builder:
                     return sc.get("A")
                 if x in self.conv and set(kinds) & ERROR_CLASSES:
                     return sc.get("D")
+            if isinstance(e, ast.Call) and call_name(e) == "isinstance" and len(e.args) == 2 and set(_class_names(e.args[1])) & ERROR_CLASSES:
+                # whatever the local is called and however far the value has travelled (helper results, aliases): what it holds on
+                # THIS path decides - the result of convert_value is an error exactly in the scenario of a rejected default, an object
+                # the builder has just made (a constructor, evolve of one) is none
+                r = sim.resolve(e.args[0], st)
+                if isinstance(r, ast.Call):
+                    if isinstance(r.func, ast.Attribute) and r.func.attr == "convert_value":
+                        return sc.get("D")
+                    last = call_name(r).rsplit(".", 1)[-1]
+                    if last in ("evolve", "cls") or (last not in ERROR_CLASSES and any(k.name == last for k in self.ix.classes.values())):
+                        return False
             return None
 
         def none_of(e: ast.expr, st: State, sim: PathSim) -> "bool | None":
@@ -821,7 +1143,7 @@ class _Builder:
             return "fall"
         if isinstance(s, ast.Raise):
             return "raise"
-        if returns_error(s, self.err):
+        if path_returns_error(p, self.err):
             return "error"
         assert isinstance(s, ast.Return)
         v = s.value
@@ -1018,16 +1340,85 @@ def _carries_converted_default(b: _Builder, p: Path) -> bool:
 # =====================================================================================================================
 
 class _Merge:
+    """merge_properties seen from one enum class K: the dispatcher with the private helpers it hands over to written out in place
+    (_Inliner: calls in return position, helper calls in tests, loops over constant tables unrolled), simulated under scenarios that
+    say which property class each of the two arguments has.  Which helper does the work, how many there are and what they are
+    called is not asked."""
+
     def __init__(self, ix: Any, f: FuncInfo, cls_name: str):
         self.ix, self.f, self.K = ix, f, cls_name
-        self.fn = f.node
+        self.fn = _Inliner(ix, f, depth=3).run()
         ps = [p.arg for p in f.params]
         if len(ps) != 2:
             raise AnalysisError(f"anchor missing: the two properties merged by {f.name}")
         self.p = {ps[0]: 1, ps[1]: 2}
         self.locals = local_names(self.fn)
-        self.err = error_names(self.fn)
-        self.n_subset = 0
+        self.err = error_locals(self.fn)
+        self.class_names_all = {c.name for c in ix.classes.values()}
+        self._mro: dict[str, set[str]] = {}
+
+    def mro(self, cname: str) -> set[str]:
+        if cname not in self._mro:
+            self._mro[cname] = {k.name for k in self.ix.mro(self.ix.cls(cname))}
+        return self._mro[cname]
+
+    # -- what an expression stands for on a path ---------------------------------------------------------------------------------------
+    def deep(self, e: ast.expr, st: State, sim: PathSim, depth: int = 0) -> ast.expr:
+        """PathSim.resolve, followed through the constants of the module and the fields of a record that was constructed in sight
+        (`flavour.prop_type` with flavour bound to `_Flavour(prop_type=K, ...)` is K)"""
+        e = sim.resolve(e, st)
+        if depth > 5:
+            return e
+        if isinstance(e, ast.Name) and e.id not in self.locals and e.id not in self.p and e.id in self.f.module.variables:
+            return self.deep(self.f.module.variables[e.id], st, sim, depth + 1)
+        if isinstance(e, ast.Attribute):
+            base = self.deep(e.value, st, sim, depth + 1)
+            if isinstance(base, ast.Call) and not any(k.arg is None for k in base.keywords):
+                v = next((k.value for k in base.keywords if k.arg == e.attr), None)
+                last = call_name(base).rsplit(".", 1)[-1]
+                if v is None and last in self.class_names_all and not any(isinstance(x, ast.Starred) for x in base.args):
+                    flds = list(self.ix.cls(last).fields)
+                    if e.attr in flds and flds.index(e.attr) < len(base.args):
+                        v = base.args[flds.index(e.attr)]
+                if v is not None:
+                    return self.deep(v, st, sim, depth + 1)
+        return e
+
+    def applied(self, e: ast.expr, st: State, sim: PathSim) -> ast.expr:
+        """a call of a local / field that holds a `lambda x: body` is body with x replaced by the argument"""
+        import copy
+
+        if isinstance(e, ast.Call) and not e.keywords:
+            fn = self.deep(e.func, st, sim)
+            a = fn.args if isinstance(fn, ast.Lambda) else None
+            if a is not None and not (a.vararg or a.kwarg or a.kwonlyargs or a.defaults) and len(a.args) + len(a.posonlyargs) == len(e.args):
+                ps = [x.arg for x in [*a.posonlyargs, *a.args]]
+                args = list(e.args)
+
+                class S(ast.NodeTransformer):
+                    def visit_Name(self, n: ast.Name) -> ast.AST:
+                        return copy.deepcopy(args[ps.index(n.id)]) if n.id in ps else n
+
+                return S().visit(copy.deepcopy(fn.body))
+        return e
+
+    def class_names(self, e: ast.expr, st: State, sim: PathSim) -> "list[str] | None":
+        """the classes an isinstance test names (tuples, module constants and record fields followed); None: not known"""
+        e = self.deep(e, st, sim)
+        out: list[str] = []
+        for x in (e.elts if isinstance(e, (ast.Tuple, ast.List, ast.Set)) else [e]):
+            x = self.deep(x, st, sim)
+            if isinstance(x, (ast.Tuple, ast.List, ast.Set)):
+                sub = self.class_names(x, st, sim)
+                if sub is None:
+                    return None
+                out += sub
+                continue
+            nm = (dotted(x) or "").rsplit(".", 1)[-1]
+            if nm not in self.class_names_all:
+                return None
+            out.append(nm)
+        return out
 
     def side(self, e: ast.expr, st: State, sim: PathSim) -> "int | None":
         """1 / 2: the expression stands for the first / second property on this path"""
@@ -1037,8 +1428,9 @@ class _Merge:
         return None
 
     def values_side(self, e: ast.expr, st: State, sim: PathSim) -> "int | None":
-        """the property whose member table the expression reads (p.values, set(p.values.items()), ...)"""
-        e = sim.resolve(e, st)
+        """the property whose member table the expression reads (p.values, set(p.values.items()), f(p) with f a lambda that
+        reads its argument's values, ...)"""
+        e = self.applied(sim.resolve(e, st), st, sim)
         hits = set()
         for n in ast.walk(e):
             if isinstance(n, ast.Attribute) and n.attr == "values":
@@ -1059,7 +1451,7 @@ class _Merge:
             if a and b and a != b:
                 return (a, b, False) if e.func.attr == "issubset" else (b, a, False)
         if isinstance(e, ast.Call) and depth == 0 and not e.keywords and len(e.args) == 2:
-            # a helper of the module that decides the subset relation of its two parameters
+            # a helper of the module that decides the subset relation of its two parameters (one the inliner left alone)
             h = next((g for g in self.ix.all_functions if g.name == call_name(e).rsplit(".", 1)[-1] and g.module is self.f.module and g.cls is None), None)
             sides = [self.side(a, st, sim) for a in e.args]
             if h is not None and len(h.params) == 2 and all(sides) and sides[0] != sides[1]:
@@ -1072,18 +1464,15 @@ class _Merge:
         return None
 
     def sim(self, sc: dict[str, Any]) -> PathSim:
-        kinds = sc["kinds"]  # side -> "enum" | "int" | "str" | "other"
+        kinds = sc["kinds"]  # side -> name of the property class the argument has
 
         def leaf(e: ast.expr, st: State, sim: PathSim) -> "bool | None":
             if isinstance(e, ast.Call) and call_name(e) == "isinstance" and len(e.args) == 2:
                 s = self.side(e.args[0], st, sim)
-                if s is None:
+                names = self.class_names(e.args[1], st, sim) if s is not None else None
+                if s is None or names is None:
                     return None
-                names = _class_names(e.args[1])
-                known = {self.K: "enum", "IntProperty": "int", "StringProperty": "str"}
-                if all(n in known for n in names):
-                    return kinds[s] in {known[n] for n in names}
-                return None
+                return any(n in self.mro(kinds[s]) for n in names)
             sub = self.subset(e, st, sim) if isinstance(e, (ast.Compare, ast.Call)) else None
             if sub is not None:
                 i, j, strict = sub
@@ -1096,8 +1485,13 @@ class _Merge:
                 for x, y in ((a, b), (b, a)):
                     if isinstance(x, ast.Attribute) and x.attr == "value_type" and isinstance(y, ast.Name) and y.id in ("int", "str", "float", "bool"):
                         s = self.side(x.value, st, sim)
-                        if s is not None and kinds[s] == "enum" and sc.get("value_type"):
+                        if s is not None and kinds[s] == self.K and sc.get("value_type"):
                             return _cmp(e.ops[0], sc["value_type"], y.id)
+                # type(a) is type(b): the two arguments have the same class
+                if all(isinstance(x, ast.Call) and call_name(x) == "type" and len(x.args) == 1 for x in (a, b)):
+                    sa_, sb_ = self.side(a.args[0], st, sim), self.side(b.args[0], st, sim)   # type: ignore[attr-defined]
+                    if sa_ and sb_:
+                        return _cmp(e.ops[0], kinds[sa_], kinds[sb_])
             return None
 
         return PathSim(self.fn, leaf)
@@ -1106,7 +1500,7 @@ class _Merge:
         return bool(names_in(t) & (self.locals | set(self.p))) or _private_call(t)
 
     def is_error(self, p: Path) -> bool:
-        return p.end is not None and (isinstance(p.end, ast.Raise) or returns_error(p.end, self.err))
+        return p.end is not None and (isinstance(p.end, ast.Raise) or path_returns_error(p, self.err))
 
     def result_base(self, p: Path, sim: PathSim) -> "tuple[int | None, int | None, int | None]":
         """(side of the property the result is built from, side its `values` come from, side its `class_info` comes from)"""
@@ -1132,20 +1526,22 @@ class _Merge:
 
 
 def enum_merge_parity(rep: Report, ctx: Any, rid: str) -> None:
-    """Entry point kept under its historical name: the facts below are checked on each merge function independently."""
+    """Entry point kept under its historical name: the facts below are checked for each enum class independently."""
     ix = ctx.py
-    rep.rule(rid, "each enum merge function (_merge_with_enum, _merge_with_literal_enum), on its own: two enums merge to the one "
-                  "whose members are a subset of the other's (both directions are tried, values and class come from the "
-                  "narrower one) and are an error when neither is; an enum merges with a plain property only when that is "
-                  "an IntProperty / StringProperty matching the enum's value type (result built from the enum), otherwise it "
-                  "is an error")
+    rep.rule(rid, "merge_properties, for each enum class K (EnumProperty, LiteralEnumProperty) on its own, whichever helpers do the "
+                  "work: two K merge to the one whose members are a subset of the other's (both directions are tried, values and "
+                  "class come from the narrower one) and are an error when neither is; a K merges with a property of another class "
+                  "only when that is an IntProperty / StringProperty matching the enum's value type (result built from the enum); "
+                  "with every other property class of the package (AnyProperty, which merges with everything, apart) it is an error")
     n = 0
-    for fname, cname in (("merge_properties._merge_with_enum", "EnumProperty"), ("merge_properties._merge_with_literal_enum", "LiteralEnumProperty")):
-        f = ix.func(fname)
+    f = ix.func("merge_properties.merge_properties")
+    plain = sorted(c.name for c in ix.property_classes() if c.name != "AnyProperty")
+    rep.require("IntProperty" in plain and "StringProperty" in plain, "the property classes IntProperty and StringProperty")
+    for cname in ("EnumProperty", "LiteralEnumProperty"):
         m = _Merge(ix, f, cname)
         w = where(f, f.node)
-        k = short(f)
-        both = {1: "enum", 2: "enum"}
+        k = f"{short(f)}[{cname}]"
+        both = {1: cname, 2: cname}
         # ---- two enums ------------------------------------------------------------------------------------------------------
         for s12, s21 in ((False, False), (True, False), (False, True), (True, True)):
             sim = m.sim({"kinds": both, "subset": {(1, 2): s12, (2, 1): s21}})
@@ -1166,15 +1562,17 @@ def enum_merge_parity(rep: Report, ctx: Any, rid: str) -> None:
                            "the merged enum does not take its members and class from the property whose members are the subset", w,
                            f"values / class_info of property {want}")
             n += 1
-        # ---- one enum, one plain property -----------------------------------------------------------------------------------------
+        # ---- one enum, one property of another class ------------------------------------------------------------------------------
         for es in (1, 2):
-            for kind in ("int", "str", "other"):
+            for other in plain:
+                if other == cname:
+                    continue
                 for vt in ("int", "str"):
-                    kinds = {es: "enum", 3 - es: kind}
+                    kinds = {es: cname, 3 - es: other}
                     sim = m.sim({"kinds": kinds, "value_type": vt})
                     paths = sim.paths()
-                    key = f"{k}::enum-with-plain[enum={es},plain={kind},value_type={vt}]"
-                    if kind == vt:
+                    key = f"{k}::enum-with-plain[enum={es},plain={other},value_type={vt}]"
+                    if ("IntProperty" in m.mro(other) and vt == "int") or ("StringProperty" in m.mro(other) and vt == "str"):
                         def from_enum(p: Path, sim: PathSim = sim, es: int = es) -> bool:
                             return not m.is_error(p) and m.result_base(p, sim)[0] == es
 
@@ -1184,4 +1582,4 @@ def enum_merge_parity(rep: Report, ctx: Any, rid: str) -> None:
                         _claim_all(rep, rid, key, paths, m.is_error, m.relevant,
                                    "an enum is merged with a property that is not of its value type", w, "return PropertyError(...)")
                     n += 1
-    rep.floor("enum_merge_facts", n, 16)
+    rep.floor("enum_merge_facts", n, 60)
